@@ -114,7 +114,7 @@ func init() {
 func eofPatchPositionRule(c *Ctx, r *Result, rule string) {
 	upd := c.FnOpt("core.Superblock.UpdateEndOfFileAddress")
 	if upd == nil {
-		r.Shortfall(c, rule, rule+": core.Superblock.UpdateEndOfFileAddress not found")
+		r.Undec(rule, "core.Superblock.UpdateEndOfFileAddress#patch-position", "", "there is no UpdateEndOfFileAddress (whether the end-of-file address is kept up to date at all is C05.2's question)")
 		return
 	}
 	writers := map[int64]string{0: "core.Superblock.writeV0", 2: "core.Superblock.writeV2", 3: "core.Superblock.writeV2"}
